@@ -12,6 +12,7 @@ import (
 	"os"
 	"path/filepath"
 	"sort"
+	"strconv"
 	"strings"
 )
 
@@ -349,8 +350,71 @@ func binOpTable(path string) {
 	fmt.Println("]")
 }
 
+// tinyfo's binOpMap: rows {precedence, goFuncName}
+func tinyBinOpTable(path string) {
+	_, f := parseFile(path)
+	var rows [][3]string
+	for _, d := range f.Decls {
+		gd, ok := d.(*ast.GenDecl)
+		if !ok {
+			continue
+		}
+		for _, sp := range gd.Specs {
+			vs, ok := sp.(*ast.ValueSpec)
+			if !ok || len(vs.Names) != 1 || vs.Names[0].Name != "binOpMap" || len(vs.Values) != 1 {
+				continue
+			}
+			cl, ok := vs.Values[0].(*ast.CompositeLit)
+			if !ok {
+				continue
+			}
+			for _, el := range cl.Elts {
+				kv, ok := el.(*ast.KeyValueExpr)
+				if !ok {
+					continue
+				}
+				key := "?"
+				if id, ok := kv.Key.(*ast.Ident); ok {
+					key = id.Name
+				}
+				v, ok := kv.Value.(*ast.CompositeLit)
+				if !ok || len(v.Elts) != 2 {
+					rows = append(rows, [3]string{key, "0", "?"})
+					continue
+				}
+				get := func(e ast.Expr) string {
+					if bl, ok := e.(*ast.BasicLit); ok {
+						return strings.Trim(bl.Value, "\"")
+					}
+					return "?"
+				}
+				prec := get(v.Elts[0])
+				if _, err := strconv.Atoi(prec); err != nil {
+					prec = "0"
+				}
+				rows = append(rows, [3]string{key, prec, get(v.Elts[1])})
+			}
+		}
+	}
+	sort.Slice(rows, func(i, j int) bool { return rows[i][0] < rows[j][0] })
+	fmt.Println("/-- binOpMap of tinyfo/parser.go: (token type, precedence, Go name), sorted by token type -/")
+	fmt.Println("def tinyBinOpTable : List (String × Nat × String) := [")
+	for i, r := range rows {
+		sep := ","
+		if i == len(rows)-1 {
+			sep = ""
+		}
+		fmt.Printf("  (%s, %s, %s)%s\n", leanStr(r[0]), r[1], leanStr(r[2]), sep)
+	}
+	fmt.Println("]")
+}
+
 // every binary expression mentioning `.Precedence` inside the given functions of a file
 func precedenceUses(path string, funcs []string, defName string) {
+	precedenceUsesOf(path, funcs, defName, ".Precedence")
+}
+
+func precedenceUsesOf(path string, funcs []string, defName string, field string) {
 	fset, f := parseFile(path)
 	var items []string
 	for _, d := range f.Decls {
@@ -371,7 +435,7 @@ func precedenceUses(path string, funcs []string, defName string) {
 			if be, ok := n.(*ast.BinaryExpr); ok {
 				var sb strings.Builder
 				printer.Fprint(&sb, fset, be)
-				if strings.Contains(sb.String(), ".Precedence") {
+				if strings.Contains(sb.String(), field) {
 					items = append(items, fd.Name.Name+": "+strings.Join(strings.Fields(sb.String()), " "))
 					return false
 				}
@@ -528,6 +592,45 @@ func pkgGlobals(dir, defName string) {
 
 var identRe = regexp.MustCompile(`[A-Za-z_][A-Za-z0-9_]*`)
 
+// the argument lists of every call of `callee` inside function `fn`
+func callArgs(path, fn, callee, defName string) {
+	fset, f := parseFile(path)
+	var items []string
+	for _, d := range f.Decls {
+		fd, ok := d.(*ast.FuncDecl)
+		if !ok || fd.Body == nil || fd.Name.Name != fn {
+			continue
+		}
+		ast.Inspect(fd.Body, func(n ast.Node) bool {
+			if ce, ok := n.(*ast.CallExpr); ok {
+				name := ""
+				switch x := ce.Fun.(type) {
+				case *ast.Ident:
+					name = x.Name
+				case *ast.SelectorExpr:
+					name = x.Sel.Name
+				}
+				if name == callee {
+					var as []string
+					for _, a := range ce.Args {
+						var sb strings.Builder
+						printer.Fprint(&sb, fset, a)
+						as = append(as, sb.String())
+					}
+					items = append(items, strings.Join(as, ", "))
+				}
+			}
+			return true
+		})
+	}
+	q := make([]string, len(items))
+	for i, it := range items {
+		q[i] = leanStr(it)
+	}
+	fmt.Printf("/-- argument lists of the calls of %s in %s of %s -/\n", callee, fn, path)
+	fmt.Printf("def %s : List String := [%s]\n", defName, strings.Join(q, ", "))
+}
+
 func main() {
 	if len(os.Args) < 2 {
 		die(fmt.Errorf("usage: extract <kind> [repo]"))
@@ -552,6 +655,12 @@ func main() {
 		fmt.Println("namespace Folang.Generated")
 		enumSites(repo)
 		callsIn(repo+"/fc/gen_parse_state.go", "scLookupRecFacCur", "lookupRecFacCalls")
+		fmt.Println("end Folang.Generated")
+	case "tiny":
+		fmt.Println("namespace Folang.Generated")
+		tinyBinOpTable(repo + "/tinyfo/parser.go")
+		precedenceUsesOf(repo+"/tinyfo/parser.go", []string{"parseExprWithPrecedence", "parseExpr"}, "tinyPrecedenceUses", ".precedence")
+		callArgs(repo+"/tinyfo/parser.go", "parseExpr", "parseExprWithPrecedence", "tinyParseExprMinPrec")
 		fmt.Println("end Folang.Generated")
 	case "globals":
 		fmt.Println("namespace Folang.Generated")
